@@ -302,7 +302,9 @@ def probe_backward(ctx, g):
     return n
 
 
-COMPOSED = ("nonherm-dense", "nonherm-mvrmv", "nonherm-mvonly", "diff", "diff-mvonly", "sum", "scaled", "matmul", "adjoint", "adjoint-of-diff")
+COMPOSED = ("nonherm-dense", "nonherm-mvrmv", "nonherm-mvonly", "diff", "diff-mvonly", "sum", "scaled", "matmul", "adjoint", "adjoint-of-diff",
+            # the same tensor (and the same operator object) in several places of one expression
+            "gram-same-object", "gram-two-objects", "sum-same-tensor")
 
 
 def composed_table(ctx, g):
@@ -339,6 +341,13 @@ def composed_table(ctx, g):
                         A, Ad = S * 2.5 + K, 2.5 * P2 + P1
                     elif kind == "matmul":
                         A, Ad = K.matmul(MvRmv(eye + P2, False)), P1 @ (eye + P2)
+                    elif kind == "gram-same-object":
+                        Kop = MvRmv(P1, False)
+                        A, Ad = Kop.H.matmul(Kop) + MvRmv(torch.diag(torch.diagonal(P2) ** 2 + 0.5), False), P1.T @ P1 + torch.diag(torch.diagonal(P2) ** 2 + 0.5)
+                    elif kind == "gram-two-objects":
+                        A, Ad = MvRmv(P1, False).H.matmul(MvRmv(P1, False)) + MvRmv(P2 @ P2.T, False), P1.T @ P1 + P2 @ P2.T
+                    elif kind == "sum-same-tensor":
+                        A, Ad = MvRmv(P1, False) + MvOnly(P1, False) * 0.5 + K * 0.25 + S, 1.75 * P1 + P2
                     elif kind == "adjoint":
                         A, Ad = MvRmv(P1, False).H, P1.T
                     else:
